@@ -351,3 +351,7 @@ impl LabelEmitter {
         self.prev_time = time;
     }
 }
+
+#[cfg(kani)]
+#[path = "/verif/contracts/kani/late.rs"]
+mod verif_kani;
